@@ -56,7 +56,7 @@ let text r = " " ^ pick r words ^ (if rbool r then "." else ":") ^ " "
 (* the model's prediction for a workload, and its JSON *)
 (* a later phase: (rewrites, the world after them, the goroutines of the phase); a rewrite names loader, search path,
    key and the new source; its modification time is 10 * (phase number) *)
-type phase = { rewrites : (int * int * string * M.sc_src option) list; world : M.sc_world; pthreads : M.sc_call list list }
+type phase = { rewrites : (int * int * string * M.sc_src option) list; world : M.sc_world; pthreads : M.sc_call list list; pause_ms : int }
 
 let finish ?(phases = []) r ~id ~tier ~debug ~has_rel (w : M.sc_world) (threads : M.sc_call list list) =
   let nthreads = List.length threads in
@@ -119,7 +119,7 @@ let finish ?(phases = []) r ~id ~tier ~debug ~has_rel (w : M.sc_world) (threads 
                      match src with
                      | Some src -> Ob [ "l", JI l; "d", JI d; "n", hx n; "s", hx (pr_src src) ]
                      | None -> Ob [ "l", JI l; "d", JI d; "n", hx n; "del", JB true ]) ph.rewrites);
-                 "mtime", JI (10 * (k + 1));
+                 "mtime", JI (10 * (k + 1)); "pause_ms", JI ph.pause_ms;
                  "threads", JL (List.map2 (fun cs es -> JL (List.map2 jcall cs es)) ph.pthreads rs) ]) (List.combine phases phase_results));
        "ncalls", JI ncalls; "nontrivial", JB (has_rel && nthreads >= 2); "model_schedule_dependent", JB !sched_dep;
        "reps", JI (if tier = "thorough" then 6 else 3) ]
@@ -318,7 +318,7 @@ let gen_workload r ~id ~tier =
             if rint r 4 = 0 && chosen <> [] then (let (d, _, _) = List.nth chosen (rint r (List.length chosen)) in
                                   if rbool r then M.ScCRender (rbool r, bs (usename d.key), vars t c) else M.ScCLoad (bs (usename d.key)))
             else gen_call ~w:w' (100 * k + t) c)) in
-        { rewrites = rws; world = w'; pthreads })
+        { rewrites = rws; world = w'; pthreads; pause_ms = 0 })
     end in
   let has_rel = List.exists (fun d -> match d.src with
       | M.ScSrcTpl t -> (match t.M.tp_extends with Some p -> String.length (sb p) > 0 && (sb p).[0] = '.' | None -> false)
@@ -382,7 +382,7 @@ let fixed_reload r ~id ~tier ~mode =
     let pthreads = List.init 16 (fun t -> List.init 6 (fun c ->
         let n = if c < 2 then (if t mod 2 = 0 then hot else hot2) else List.nth names ((t + c) mod 6) in
         if c = 3 then M.ScCLoad (bs n) else M.ScCRender ((t + c) mod 2 = 0, bs n, mkvar t c))) in
-    ({ rewrites = rws; world = w'; pthreads }, w') in
+    ({ rewrites = rws; world = w'; pthreads; pause_ms = 0 }, w') in
   let (p1, w1) = mkphase 1 w in
   let (p2, w2) = mkphase 2 w1 in
   let (p3, _) = mkphase 3 w2 in
@@ -406,6 +406,17 @@ let fixed_failing_import r ~id ~tier =
       let n = if c mod 4 = 1 then (if (t + c) mod 2 = 0 then "imp.twig" else "frm.twig") else Printf.sprintf "page%d.twig" ((t + c) mod 4) in
       M.ScCRender (c mod 2 = 0, bs n, mkvar t c))) in
   finish r ~id ~tier ~debug:false ~has_rel:false w threads
+
+(* attribute access on structs, then the engine sits idle for more than a second, then many goroutines read the same
+   attributes at once (bookkeeping that is done "at most once per second" runs for all of them at that moment) *)
+let fixed_attr_idle r ~id ~tier =
+  let t k = tpl [ txt (Printf.sprintf "a%d[" k); M.ScItFlat (M.ScFAttr (bs "u", bs "Name")); M.ScItFlat (M.ScFAttr (bs "v", bs (List.nth [ "A"; "B"; "C"; "D" ] (k mod 4))));
+                  M.ScItFlat (M.ScFVar (bs "mk")); txt "]" ] in
+  let files = List.init 4 (fun k -> (bs (Printf.sprintf "at%d.twig" k), file (t k))) in
+  let w = world [ { M.ld_fs = false; ld_dirs = [ files ] } ] in
+  let vars t c = mkvar t c @ [ (bs "u", M.ScVObj (nat_of_int 0, [ bs "bob"; bs "mr" ])); (bs "v", M.ScVObj (nat_of_int 2, [ bs "a"; bs "b"; bs "c"; bs "d" ])) ] in
+  let mk n = List.init n (fun t -> List.init 8 (fun c -> M.ScCRender (c mod 2 = 0, bs (Printf.sprintf "at%d.twig" ((t + c) mod 4)), vars t c))) in
+  finish ~phases:[ { rewrites = []; world = w; pthreads = mk 16; pause_ms = 1100 } ] r ~id ~tier ~debug:false ~has_rel:false w (mk 4)
 
 (* cold FileSystemLoader with two search paths, every goroutine asking for other names first (4b22ec0) *)
 let fixed_memo r ~id ~tier ~auto =
@@ -488,7 +499,7 @@ let run ~seed ~tier oc =
                 (fun id -> fixed_rich r ~id ~tier ~mode:0); (fun id -> fixed_rich r ~id ~tier ~mode:(1 + rint r 3));
                 (fun id -> fixed_nameless r ~id ~tier ~fs:true); (fun id -> fixed_nameless r ~id ~tier ~fs:false);
                 (fun id -> fixed_reload r ~id ~tier ~mode:0); (fun id -> fixed_reload r ~id ~tier ~mode:1);
-                (fun id -> fixed_failing_import r ~id ~tier) ] in
+                (fun id -> fixed_failing_import r ~id ~tier); (fun id -> fixed_attr_idle r ~id ~tier) ] in
   List.iteri (fun i f -> emit oc (f (i + 1))) fixed;
   let n = if tier = "thorough" then 240 else 24 in
   let nf = List.length fixed in
